@@ -1,6 +1,9 @@
 """Developer helper: run ENGINE_CHECKS of a contracts module (optionally one index) and print non-proved obligations."""
 import sys, importlib, time
 sys.path.insert(0, '/verif')
+import os
+_R = os.environ.get('VERIF_REPO', '/repo')
+sys.path[:0] = [f'{_R}/{p}' for p in ('cirq-core', 'cirq-google', 'cirq-ionq', 'cirq-aqt', 'cirq-pasqal')]  # the working tree, not the installed release
 mod = importlib.import_module('contracts.' + sys.argv[1])
 idx = [int(x) for x in sys.argv[2:]] or range(len(mod.ENGINE_CHECKS))
 for i in idx:
